@@ -1,6 +1,6 @@
 -------------------------------- MODULE Flags --------------------------------
 (* The script verification flags by name, the standard set and the +/- modification lists. *)
-EXTENDS Naturals, Sequences, FiniteSets
+EXTENDS Naturals, Sequences, FiniteSets, CryptoPrims
 
 FlagNames == {"P2SH", "STRICTENC", "DERSIG", "LOW_S", "NULLDUMMY", "SIGPUSHONLY", "MINIMALDATA",
               "DISCOURAGE_UPGRADABLE_NOPS", "CLEANSTACK", "CHECKLOCKTIMEVERIFY", "CHECKSEQUENCEVERIFY",
@@ -20,4 +20,20 @@ ApplyFrom(flags, mods, i) ==
          IN IF m[2] \notin FlagNames \/ m[1] \notin {"+", "-"} THEN <<FALSE, {}>>
             ELSE ApplyFrom(IF m[1] = "+" THEN flags \cup {m[2]} ELSE flags \ {m[2]}, mods, i + 1)
 Apply(mods) == ApplyFrom(Standard, mods, 1)
+
+\* --- the textual form given to --modify-flags: item ("," item)*, item = ("+" | "-") NAME
+\* codes = character codes of the option value. Result: <<TRUE, mods>> or <<FALSE, <<>>>> (malformed).
+RECURSIVE SplitOn(_, _, _)
+SplitOn(codes, sep, acc) == \* sequence of pieces; acc = current piece
+    IF codes = <<>> THEN <<acc>>
+    ELSE IF Head(codes) = sep THEN <<acc>> \o SplitOn(Tail(codes), sep, <<>>)
+    ELSE SplitOn(Tail(codes), sep, Append(acc, Head(codes)))
+ParseMods(codes) ==
+    LET items == SplitOn(codes, 44, <<>>)
+        okItem(it) == Len(it) >= 1 /\ it[1] \in {43, 45}
+    IN IF \E i \in 1..Len(items) : ~okItem(items[i]) THEN <<FALSE, <<>>>>
+       ELSE <<TRUE, [i \in 1..Len(items) |-> <<IF items[i][1] = 43 THEN "+" ELSE "-", CodesToStr(Tail(items[i]))>>]>>
+\* what --modify-flags=<text> must yield: <<accepted, flag set>>
+ModifyFlags(codes) ==
+    LET p == ParseMods(codes) IN IF ~p[1] THEN <<FALSE, {}>> ELSE Apply(p[2])
 =============================================================================
